@@ -3,7 +3,7 @@ from fractions import Fraction
 from .. import nf
 from ..nf import Poly, Tup, Const, Slice, NONE, TRUE, FALSE
 from ..model import AnalysisError
-from ..rules import run as analyse, returns, fmt, is_app, S, C, pair, run_snippet, mentions_sym
+from ..rules import run as analyse, returns, fmt, is_app, S, C, pair, run_snippet, mentions_sym, conds_str
 from . import common
 
 TILT_INLINE = ['plane.Tilt.__init__', 'plane.TiltInterface.__init__', 'plane.Plane.__init__',
@@ -89,6 +89,17 @@ def folding(chk, repo, clause):
                 ok = ok or good
                 det = f'{fmt(e.target)}.append({fmt(e.data["args"][0])})'
         ok = ok and isinstance(p.ret, Poly) and sup and p.ret == sup[0].result
+        # ... on every way through the loop body: the same element passed twice tilts twice
+        for lp in p.state.loops:
+            if lp['func'] != f.key:
+                continue
+            for bs in lp['states']:
+                evs = bs.events[lp['n_pre_events']:]
+                if not any(e.kind == 'write' and e.data.get('how') == 'method:append' for e in evs):
+                    cs = [(c, pol) for c, pol, _ in bs.conds[len(lp.get('pre_conds', ())):]] if hasattr(bs, 'conds') else []
+                    ok = False
+                    det = 'a way through the loop body leaves a field without this tilt' + \
+                        (' [' + ', '.join(('' if pol else 'not ') + fmt(c)[:60] for c, pol in cs[-2:]) + ']' if cs else '')
     chk.ob(clause, 'D-fold', f.key, 'the tilt element is appended to every field of the product', bool(ok), det, f.loc())
     # Wavefront(tilt=[rx, ry]) wraps Tilt(x=rx, y=ry)
     f, paths, _ = analyse(repo, 'wavefront.Wavefront.__init__', config={'tilt': pair('tilt')})
@@ -112,6 +123,11 @@ def fit_tilt_rule(chk, repo, clause):
         tilts = [e for e in p.events if e.kind == 'call' and e.data.get('new') == 'plane.Tilt']
         eins = [e for e in p.events if e.kind == 'call' and e.data.get('callee') == 'ext:numpy.einsum']
         if not tilts:
+            if eins and any(e.kind == 'write' and e.data.get('attr') == 'opd' or e.kind == 'call' and
+                            str(e.data.get('callee', '')).startswith('ext:numpy.') and e.data.get('inplace') for e in p.events):
+                # the ramp is taken out of the OPD on this path but never entered in the tilt list: it is lost
+                chk.ob(clause, 'D-index', f.key, 'the removed tip/tilt is recorded on every path', False,
+                       f'path [{conds_str(p)[:160]}] subtracts the fitted ramp from the OPD without appending a Tilt', f.loc(p.node))
             continue
         for t, e in zip(tilts, eins):
             n += 1
